@@ -4,12 +4,17 @@ import (
 	"bytes"
 	"encoding/json"
 	"fmt"
+	"sort"
 	"strconv"
 	"strings"
 	"time"
 
 	"github.com/brewlin/net-protocol/pkg/buffer"
+	"github.com/brewlin/net-protocol/protocol/header"
 	"github.com/brewlin/net-protocol/protocol/network/fragmentation"
+	"github.com/brewlin/net-protocol/protocol/network/hash"
+
+	tcpip "github.com/brewlin/net-protocol/protocol"
 
 	"verif/engine"
 	"verif/shim/vsched"
@@ -327,6 +332,7 @@ func c08Jobs(tier string) []string {
 	for i := 0; i < 4; i++ {
 		jobs = append(jobs, fmt.Sprintf("churn:%d/4", i))
 	}
+	jobs = append(jobs, "keys")
 	for _, c := range cfgs {
 		sh := 8
 		for i := 0; i < sh; i++ {
@@ -415,8 +421,135 @@ func c08Churn(i, n int, r *engine.Result) []engine.Violation {
 	return out
 }
 
+// ---------- reassembly keys (what ipv4.HandlePacket hands to Process) ----------
+
+func c08Hdr(src, dst [4]byte, id uint16, proto byte) header.IPv4 {
+	b := make([]byte, header.IPv4MinimumSize)
+	h := header.IPv4(b)
+	h.Encode(&header.IPv4Fields{IHL: header.IPv4MinimumSize, TotalLength: 28, ID: id, TTL: 64, Protocol: proto,
+		SrcAddr: tcpipAddr(src[:]), DstAddr: tcpipAddr(dst[:])})
+	return h
+}
+
+// c08Keys: (1) for three base tuples, every tuple that differs from the base in exactly one
+// octet of source / destination / identification / protocol (11 octets x 255 values) must get
+// a different reassembly key - a key that ignores part of a field collides systematically;
+// (2) the key is a 32-bit hash of 88 bits, so colliding tuples exist for every hash seed: one
+// is searched for among 2^22 tuples and the two datagrams are fed interleaved to the real
+// reassembler under the keys the real hash gives them.
+func c08Keys(r *engine.Result) []engine.Violation {
+	var out []engine.Violation
+	bases := []struct {
+		src, dst [4]byte
+		id       uint16
+		proto    byte
+	}{
+		{[4]byte{10, 0, 0, 2}, [4]byte{10, 0, 0, 1}, 0x1234, 17},
+		{[4]byte{192, 168, 77, 200}, [4]byte{192, 168, 77, 1}, 0, 6},
+		{[4]byte{255, 255, 255, 254}, [4]byte{1, 2, 3, 4}, 0xffff, 1},
+	}
+	for bi, b := range bases {
+		base := hash.IPv4FragmentHash(c08Hdr(b.src, b.dst, b.id, b.proto))
+		var hits []string
+		for oct := 0; oct < 11; oct++ {
+			for v := 0; v < 256; v++ {
+				src, dst, id, proto := b.src, b.dst, b.id, b.proto
+				var name string
+				switch {
+				case oct < 4:
+					if int(src[oct]) == v {
+						continue
+					}
+					src[oct] = byte(v)
+					name = fmt.Sprintf("source octet %d = %d", oct, v)
+				case oct < 8:
+					if int(dst[oct-4]) == v {
+						continue
+					}
+					dst[oct-4] = byte(v)
+					name = fmt.Sprintf("destination octet %d = %d", oct-4, v)
+				case oct == 8:
+					if int(id>>8) == v {
+						continue
+					}
+					id = id&0xff | uint16(v)<<8
+					name = fmt.Sprintf("identification high byte = %d", v)
+				case oct == 9:
+					if int(id&0xff) == v {
+						continue
+					}
+					id = id&0xff00 | uint16(v)
+					name = fmt.Sprintf("identification low byte = %d", v)
+				default:
+					if int(proto) == v {
+						continue
+					}
+					proto = byte(v)
+					name = fmt.Sprintf("protocol = %d", v)
+				}
+				r.Transitions++
+				if hash.IPv4FragmentHash(c08Hdr(src, dst, id, proto)) == base {
+					hits = append(hits, name)
+				}
+			}
+		}
+		r.Execs++
+		r.Nontrivial++
+		if len(hits) >= 2 {
+			out = append(out, engine.Violation{Property: "C08", Kind: "reassembly-key", Key: "key-ignores-field", Detail: fmt.Sprintf("base tuple %d (%v -> %v id %#x proto %d): %d tuples that differ from it in one octet get the same reassembly key, e.g. %s; %s - fragments of those datagrams are reassembled together", bi, b.src, b.dst, b.id, b.proto, len(hits), hits[0], hits[1]), Replay: engine.MustJSON(map[string]interface{}{"keys": true})})
+		}
+	}
+	// (2) a colliding pair for this process's hash seed
+	type ent struct {
+		key uint32
+		idx uint32
+	}
+	const N = 1 << 22
+	ents := make([]ent, N)
+	mk := func(i uint32) header.IPv4 {
+		return c08Hdr([4]byte{10, 0, byte(i >> 16 & 0x3f), 2}, [4]byte{10, 0, 0, 1}, uint16(i), 17)
+	}
+	for i := uint32(0); i < N; i++ {
+		ents[i] = ent{hash.IPv4FragmentHash(mk(i)), i}
+	}
+	sort.Slice(ents, func(a, b int) bool { return ents[a].key < ents[b].key })
+	r.Transitions += N
+	for i := 1; i < N; i++ {
+		if ents[i].key != ents[i-1].key {
+			continue
+		}
+		a, b := ents[i-1].idx, ents[i].idx
+		vtime.EnableVirtual()
+		f := fragmentation.NewFragmentation(1<<20, 1<<19, 30*time.Second)
+		ca, cb := c08Content(1, 0, 32), c08Content(2, 0, 32)
+		// datagram A's first half, then datagram B's second half: neither set is complete
+		f.Process(hash.IPv4FragmentHash(mk(a)), 0, 15, true, c08VV(ca[:16], 3))
+		res, done := f.Process(hash.IPv4FragmentHash(mk(b)), 16, 31, false, c08VV(cb[16:], 3))
+		r.Execs++
+		r.Nontrivial++
+		if done {
+			ha, hb := mk(a), mk(b)
+			out = append(out, engine.Violation{Property: "C08", Kind: "reassembly-key", Key: "hash-collision-merges-datagrams", Detail: fmt.Sprintf("datagrams (%x -> %x id %#x proto 17) and (%x -> %x id %#x proto 17) get the same 32-bit reassembly key %#x: the first half of one and the second half of the other were handed up as one datagram %x although neither set is complete", string(ha.SourceAddress()), string(ha.DestinationAddress()), ha.ID(), string(hb.SourceAddress()), string(hb.DestinationAddress()), hb.ID(), ents[i].key, res.ToView()), Replay: engine.MustJSON(map[string]interface{}{"keys": true})})
+		}
+		break
+	}
+	return out
+}
+
+func tcpipAddr(b []byte) tcpip.Address { return tcpip.Address(string(b)) }
+
 func c08Run(job, tier string, deadline time.Time) *engine.Result {
 	r := &engine.Result{Exhaustive: true}
+	if job == "keys" {
+		r.Violations = c08Keys(r)
+		for k := range r.Violations {
+			r.Violations[k].Job = job
+		}
+		r.States = r.Execs + 1
+		r.Outcomes = []uint64{engine.Hash(job, len(r.Violations) > 0)}
+		r.Sample(map[string]interface{}{"keys": "3 base tuples x 2805 single-octet variants; collision search over 2^22 tuples"})
+		return r
+	}
 	if strings.HasPrefix(job, "churn:") {
 		var i, n int
 		fmt.Sscanf(job, "churn:%d/%d", &i, &n)
@@ -454,6 +587,18 @@ func c08Run(job, tier string, deadline time.Time) *engine.Result {
 func c08Replay(rp json.RawMessage) *engine.Violation {
 	var ch struct {
 		Churn []int `json:"churn"`
+	}
+	var ky struct {
+		Keys bool `json:"keys"`
+	}
+	if json.Unmarshal(rp, &ky) == nil && ky.Keys {
+		for _, v := range c08Keys(&engine.Result{}) {
+			if v.Key == "key-ignores-field" {
+				vv := v
+				return &vv
+			}
+		}
+		return nil
 	}
 	if json.Unmarshal(rp, &ch) == nil && len(ch.Churn) == 2 {
 		// re-run exactly that pair
